@@ -226,7 +226,7 @@ class DateSearchWithDetection:
                 )
                 raise ValueError(
                     "Unknown language(s): %s"
-                    % ", ".join(map(repr, unsupported_languages))
+                    % ", ".join(map(repr, sorted(unsupported_languages)))
                 )
         elif languages is not None:
             raise TypeError(
